@@ -21,6 +21,8 @@ HOOKS = [
     'pySDC.implementations.hooks.log_step_size.LogStepSize',
     'pySDC.implementations.hooks.log_errors.LogGlobalErrorPostStep',
     'pySDC.implementations.hooks.log_errors.LogLocalErrorPostStep',
+    # a subclass of a hook that a convergence controller adds later on its own (registration of related hook classes)
+    'pySDC.implementations.hooks.log_embedded_error_estimate.LogEmbeddedErrorEstimatePostIter',
     'vf.env.block.DiagnosticHook',  # environment, not under test: causes work outside the steps
 ]
 POST = ('vf.props._hist:check_stats',)
